@@ -7,6 +7,13 @@
 #include <string.h>
 #include <stdio.h>
 
+#ifdef NANOLANG_VERIF
+void (*vm_verif_alloc_hook)(void *obj, uint8_t tag) = NULL;
+void (*vm_verif_free_hook)(void *obj, uint8_t tag) = NULL;
+#define VERIF_ALLOC(p, t) do { if (vm_verif_alloc_hook) vm_verif_alloc_hook((p), (t)); } while (0)
+#define VERIF_FREE(p, t)  do { if (vm_verif_free_hook) vm_verif_free_hook((p), (t)); } while (0)
+#endif
+
 /* ========================================================================
  * Heap Init / Destroy
  * ======================================================================== */
@@ -84,6 +91,9 @@ void vm_release(VmHeap *heap, NanoValue v) {
                     break;
                 }
             }
+#ifdef NANOLANG_VERIF
+            VERIF_FREE(s, TAG_STRING);
+#endif
             free(s);
             break;
         }
@@ -119,6 +129,9 @@ static void release_array(VmHeap *heap, VmArray *a) {
     }
     heap->stats.freed += sizeof(VmArray) + a->capacity * sizeof(NanoValue);
     heap->stats.num_objects--;
+#ifdef NANOLANG_VERIF
+    VERIF_FREE(a, TAG_ARRAY);
+#endif
     free(a->elements);
     free(a);
 }
@@ -138,6 +151,9 @@ static void release_struct(VmHeap *heap, VmStruct *s) {
     }
     heap->stats.freed += sizeof(VmStruct) + s->field_count * sizeof(NanoValue);
     heap->stats.num_objects--;
+#ifdef NANOLANG_VERIF
+    VERIF_FREE(s, TAG_STRUCT);
+#endif
     free(s->fields);
     free(s);
 }
@@ -148,6 +164,9 @@ static void release_union(VmHeap *heap, VmUnion *u) {
     }
     heap->stats.freed += sizeof(VmUnion) + u->field_count * sizeof(NanoValue);
     heap->stats.num_objects--;
+#ifdef NANOLANG_VERIF
+    VERIF_FREE(u, TAG_UNION);
+#endif
     free(u->fields);
     free(u);
 }
@@ -159,6 +178,9 @@ static void release_tuple(VmHeap *heap, VmTuple *t) {
     size_t sz = sizeof(VmTuple) + t->count * sizeof(NanoValue);
     heap->stats.freed += sz;
     heap->stats.num_objects--;
+#ifdef NANOLANG_VERIF
+    VERIF_FREE(t, TAG_TUPLE);
+#endif
     free(t);
 }
 
@@ -169,6 +191,9 @@ static void release_closure(VmHeap *heap, VmClosure *c) {
     size_t sz = sizeof(VmClosure) + c->capture_count * sizeof(NanoValue);
     heap->stats.freed += sz;
     heap->stats.num_objects--;
+#ifdef NANOLANG_VERIF
+    VERIF_FREE(c, TAG_FUNCTION);
+#endif
     free(c);
 }
 
@@ -185,6 +210,9 @@ static void release_hashmap(VmHeap *heap, VmHashMap *m) {
     }
     heap->stats.freed += sizeof(VmHashMap) + m->bucket_count * sizeof(VmHMEntry *);
     heap->stats.num_objects--;
+#ifdef NANOLANG_VERIF
+    VERIF_FREE(m, TAG_HASHMAP);
+#endif
     free(m->buckets);
     free(m);
 }
@@ -219,6 +247,9 @@ VmString *vm_string_new(VmHeap *heap, const char *data, uint32_t length) {
 
     heap->stats.allocated += sz;
     heap->stats.num_objects++;
+#ifdef NANOLANG_VERIF
+    VERIF_ALLOC(s, TAG_STRING);
+#endif
 
     /* Add to intern table */
     if (heap->intern_count >= heap->intern_capacity) {
@@ -322,6 +353,9 @@ VmArray *vm_array_new(VmHeap *heap, uint8_t elem_type, uint32_t initial_capacity
     a->elements = calloc(initial_capacity, sizeof(NanoValue));
     heap->stats.allocated += sizeof(VmArray) + initial_capacity * sizeof(NanoValue);
     heap->stats.num_objects++;
+#ifdef NANOLANG_VERIF
+    VERIF_ALLOC(a, TAG_ARRAY);
+#endif
     return a;
 }
 
@@ -396,6 +430,9 @@ VmStruct *vm_struct_new(VmHeap *heap, uint32_t def_idx, uint32_t field_count) {
     s->fields = calloc(field_count, sizeof(NanoValue));
     heap->stats.allocated += sizeof(VmStruct) + field_count * sizeof(NanoValue);
     heap->stats.num_objects++;
+#ifdef NANOLANG_VERIF
+    VERIF_ALLOC(s, TAG_STRUCT);
+#endif
     return s;
 }
 
@@ -414,6 +451,9 @@ VmUnion *vm_union_new(VmHeap *heap, uint32_t def_idx, uint16_t variant, uint16_t
     u->fields = calloc(field_count, sizeof(NanoValue));
     heap->stats.allocated += sizeof(VmUnion) + field_count * sizeof(NanoValue);
     heap->stats.num_objects++;
+#ifdef NANOLANG_VERIF
+    VERIF_ALLOC(u, TAG_UNION);
+#endif
     return u;
 }
 
@@ -430,6 +470,9 @@ VmTuple *vm_tuple_new(VmHeap *heap, uint32_t count) {
     t->count = count;
     heap->stats.allocated += sz;
     heap->stats.num_objects++;
+#ifdef NANOLANG_VERIF
+    VERIF_ALLOC(t, TAG_TUPLE);
+#endif
     return t;
 }
 
@@ -447,6 +490,9 @@ VmClosure *vm_closure_new(VmHeap *heap, uint32_t fn_idx, uint16_t capture_count)
     c->capture_count = capture_count;
     heap->stats.allocated += sz;
     heap->stats.num_objects++;
+#ifdef NANOLANG_VERIF
+    VERIF_ALLOC(c, TAG_FUNCTION);
+#endif
     return c;
 }
 
@@ -479,6 +525,9 @@ VmHashMap *vm_hashmap_new(VmHeap *heap, uint8_t key_type, uint8_t val_type) {
     m->buckets = calloc(HM_INITIAL_BUCKETS, sizeof(VmHMEntry *));
     heap->stats.allocated += sizeof(VmHashMap) + HM_INITIAL_BUCKETS * sizeof(VmHMEntry *);
     heap->stats.num_objects++;
+#ifdef NANOLANG_VERIF
+    VERIF_ALLOC(m, TAG_HASHMAP);
+#endif
     return m;
 }
 
